@@ -328,7 +328,7 @@ impl BlobStore for MixedLenBlobStore {
             return Err(ZiporaError::not_found(format!(
                 "Record {} not found (max {})",
                 id,
-                self.num_records - 1
+                self.num_records.saturating_sub(1)
             )));
         }
 
